@@ -196,13 +196,21 @@ def spin_ops(j2):
 
 @st.composite
 def _strat_irrep(draw, tier='quick'):
-    return dict(j2=draw(st.integers(0, 10)), a1=draw(_angle_triple(True)), a2=draw(_angle_triple(True)), shape=draw(st.sampled_from([[], [2]])), prng=draw(st.integers(0, 2 ** 31)))
+    return dict(j2=draw(st.integers(0, 10)), a1=draw(_angle_triple(True)), a2=draw(_angle_triple(True)), shape=draw(st.sampled_from([[], [2]])), prng=draw(st.integers(0, 2 ** 31)),
+                turns=[draw(st.integers(-2, 2)) for _ in range(3)])
 
 
 def run_irrep(ctx, case):
     g = _g()
     j2 = case['j2']
-    A1, A2 = case['a1'], case['a2']
+    A1, A2 = list(case['a1']), list(case['a2'])
+    # Euler angles are accepted outside their principal ranges (negative, more than one turn); for SU(2) a full turn of alpha or gamma flips the sign
+    tn = case.get('turns', [0, 0, 0])
+    if A1[3] not in ('zero', 'pi'):
+        A1[0] += TWO_PI * tn[0]
+        A1[2] += TWO_PI * tn[2]
+    if any(tn):
+        ctx.label('angles outside the principal range')
     deg = A1[3] in ('zero', 'pi') or A2[3] in ('zero', 'pi')
     ctx.note(klass='irrep', desc=[j2, A1[3], A2[3], case['shape']], nontrivial=deg or j2 >= 3, labels=[f'j2={j2}', A1[3]])
     jx, jy, jz = spin_ops(j2)
@@ -284,7 +292,36 @@ def run_am(ctx, case):
         ctx.close(C @ tot @ C.T, blocks, 1e-10, 'CG blocks intertwine J1 x 1 + 1 x J2 with the block spins')
 
 
+def cases_cube(tier):
+    import itertools
+    out = []
+    for perm in itertools.permutations(range(3)):
+        for signs in itertools.product([1, -1], repeat=3):
+            M = np.zeros((3, 3), dtype=np.int64)
+            for i, (p, sg) in enumerate(zip(perm, signs)):
+                M[i, p] = sg
+            if round(np.linalg.det(M)) == 1:
+                out.append(dict(M=M.tolist()))
+    return out
+
+
+def run_cube(ctx, case):
+    """the 24 rotations of the cube written with integers (all of them have beta in {0, pi/2, pi}): float and integer dtypes, single and as one batch"""
+    g = _g()
+    M = np.array(case['M'])
+    ctx.note(klass='cube', desc=case['M'], nontrivial=True)
+    for dt in (np.float64, np.int64, np.int32):
+        A = M.astype(dt)
+        al, be, ga = g.so3_to_angle(A.copy())
+        ctx.finite(np.array([al, be, ga], dtype=np.float64), 'cube rotation: angles finite')
+        ctx.close(g.angle_to_so3(al, be, ga), M, 5e-6, 'cube rotation (integer or float dtype): angles -> matrix reproduces the input')
+        U = g.so3_to_su2(A.copy())
+        ctx.close(g.su2_to_so3(U), M, 5e-6, 'cube rotation: su2_to_so3(so3_to_su2(R)) = R')
+        ctx.tick()
+
+
 SUBCHECKS = [
+    SubCheck('cube_rotations', run_cube, cases=cases_cube, shards=(2, 2)),
     SubCheck('roundtrip', run_roundtrip, strategy=_strat_rt, examples=(2500, 15000), shards=(3, 16), floors={'mixed batch': 0.1, 'degenerate': 0.3}),
     SubCheck('homomorphism', run_hom, strategy=_strat_hom, examples=(400, 3000)),
     SubCheck('irreps', run_irrep, strategy=_strat_irrep, examples=(500, 4000), shards=(2, 16)),
